@@ -149,13 +149,24 @@ class FindMatchingRule:
     def ensures_most_specific(path_str, directories, result):
         return implies(result[1] is not None, code_depth(result[1], path_str) == best_depth(directories, path_str))
 
+    def witness_most_specific():
+        # property text: "the most specific directory rule containing it" decides -- also when that rule is EMPTY (a nested
+        # exemption: nothing to enforce below it), and whatever the order of the entries
+        return {"self": {}, "path_str": "src/generated/api/x.py",
+                "directories": [["src/generated", {}], ["src", {"deny": [{"pattern": ".*", "reason": "no files here"}]}],
+                                ["src/generated/api/v2", {"allow": ["^$"]}]]}
+
+    def witness_is_a_matching_entry():
+        return {"self": {}, "path_str": "docs/a.md",
+                "directories": [["/", {"allow": [".*"]}], ["docs", {}], ["doc", {"deny": ["."]}]]}
+
     def lemmas_found_rule_is_well_formed(path_str, directories, result):
         return scan_props(directories, path_str, None, None, -1) and \
             implies(result[1] is not None, entry_wf(directories, result[1], result[0]))
 
     def ensures_found_rule_is_well_formed(path_str, directories, result):
         return implies(wf_directories(directories) and result[1] is not None,
-                       wf_rules(result[0]) and len(result[1]) > 0 and result[0] != {})
+                       wf_rules(result[0]) and len(result[1]) > 0)
 
     def inv0(path_str, directories, best_match, best_path, best_depth, rest):
         return scan(directories, path_str, None, None, -1) == scan(rest, path_str, best_match, best_path, best_depth)
@@ -251,11 +262,31 @@ from contracts.c12_core import violation_of  # noqa: E402
 FactoryT = Rec("ViolationFactory", cls=VF + "ViolationFactory")
 
 
-@contract(VF + "ViolationFactory._get_suggestion", props=["C18"], types=dict(filename=Str), returns=Str,
-          assumed="suggestion text only (file-type heuristics on the file name); no property clause depends on it")
+# The suggestion text itself is not part of any clause -- but a suggestion helper that RAISES is: check_all_rules wraps each
+# section in `with suppress(KeyError)` ("section not configured"), so a KeyError escaping from the violation factory would
+# silently erase a verdict. Hence: verified, raises=[] (no exception of any kind), for every file name.
+@contract(VF + "ViolationFactory._is_temp_file", props=["C18", "C11"], types=dict(self=FactoryT, filename=Str), returns=Bool, raises=[])
+class IsTempFile:
+    def value(self, filename):
+        return filename.startswith(("debug", "temp")) or filename.endswith(".log")
+
+
+SUGGESTION_KINDS = ("test", "component", "source", "temp")
+
+
+@contract(VF + "ViolationFactory._classify_file_type", props=["C18", "C11"], types=dict(self=FactoryT, filename=Str),
+          returns=Opt(Str), raises=[])
+class ClassifyFileType:
+    def ensures_a_kind_that_has_a_suggestion(self, filename, result):
+        return result is None or result in SUGGESTION_KINDS
+
+
+@contract(VF + "ViolationFactory._get_suggestion", props=["C18", "C11"], types=dict(self=FactoryT, filename=Str), returns=Str,
+          raises=[])
 class GetSuggestion:
-    def ensures(filename, result):
-        return True
+    def ensures_total(self, filename, result):
+        # any text will do; what matters is that a suggestion is produced for EVERY file name without raising
+        return len(result) >= 0
 
 
 def is_fp_violation(v, rel_path):
@@ -351,7 +382,7 @@ class CheckDirectoryAllowRules:
 
 @opaque
 def wf_directories(dirs: Directories) -> Bool:
-    return len(dirs) == 0 or (wf_rules(dirs[0][1]) and len(dirs[0][0]) > 0 and dirs[0][1] != {} and wf_directories(dirs[1:]))
+    return len(dirs) == 0 or (wf_rules(dirs[0][1]) and len(dirs[0][0]) > 0 and wf_directories(dirs[1:]))  # a rule dict may be EMPTY
 
 
 @lemma(props=["C18"], types=dict(dirs=Directories, key=Str, rule=Dict), name="entries-are-well-formed")
@@ -362,7 +393,7 @@ def entry_wf(dirs, key, rule):
     if len(dirs) == 0:
         return not is_entry(dirs, key, rule)
     ih(entry_wf, dirs[1:], key, rule)
-    return implies(wf_directories(dirs) and is_entry(dirs, key, rule), wf_rules(rule) and len(key) > 0 and rule != {})
+    return implies(wf_directories(dirs) and is_entry(dirs, key, rule), wf_rules(rule) and len(key) > 0)
 
 
 def most_specific(directories, path):
@@ -383,6 +414,11 @@ class CheckDirectoryRules:
 
     def ensures_at_most_one(self, path_str, rel_path, directories, result):
         return len(result) <= 1 and implies(len(result) == 1, is_fp_violation(result[0], rel_path))
+
+    def ensures_an_empty_most_specific_rule_reports_nothing(self, path_str, rel_path, directories, result):
+        # the most specific containing rule decides even if it is empty: then the file satisfies all applicable rules
+        return implies(most_specific(directories, path_str)[1] is not None and most_specific(directories, path_str)[0] == {},
+                       len(result) == 0)
 
 
 @contract(R + "RuleChecker._check_global_deny", props=["C18"],
